@@ -6,6 +6,10 @@
 //   * axis/angle                = orc::rodrigues_rowvec
 //   * slerp                     = (sin((1-t)A) q1 + sin(tA) q2) / sin A,  A = 2 atan2(|q1-q2|,|q1+q2|)
 //   * intermediate              = q1 exp(-(log(q1^-1 q2) + log(q1^-1 q0))/4)   (Watt & Watt)
+// Sub-checks: A rotate, B algebra, C extract_quat, D axis_angle, E set_rotation, F slerp, G spline, and
+//   E2 set_rotation_ext / D2 axis_angle_ext / A2 rotate_ext : the assertions of E / D / A with vector lengths over the whole finite range
+//   H  dest_reuse : every wholesale setter on destination objects pre-filled with junk == the result on a fresh object (bitwise)
+//   I  alias      : the object itself as operand / argument (q *= q, slerp (q,q,t), setRotation (v,v)) == the call on copies (bitwise)
 // Tolerances are absolute, in units of eps(T), on quantities of magnitude <= 1 (or relative to |v|).
 // "measured" = worst value seen on the unchanged tree (quick+thorough tiers, several seeds, -DVP_MEASURE).
 #include "vpbt.h"
@@ -747,6 +751,19 @@ template <class T> static void extract_case (vp::Ctx& c)
 C10_EXT (extract_quat_f, float)
 C10_EXT (extract_quat_d, double)
 
+// smallest positive (subnormal) value of T and smallest normal, in quad
+template <class T> static inline quad DENORM_MIN () { return (quad) std::numeric_limits<T>::denorm_min (); }
+template <class T> static inline quad MIN_NORMAL () { return (quad) std::numeric_limits<T>::min (); }
+// A vector whose Euclidean NORM is a subnormal number: Vec3::length() is then only representable to half a subnormal
+// quantum (relative error up to denorm_min/(2L), e.g. 6% for L = 8 denorm_min), so normalized() is not a unit vector
+// (property C08 promises unit length only for vectors "whose norm is a normal (not subnormal) number") and
+// setRotation / rotationMatrix, which start with from.normalized() and to.normalized(), inherit the error: non-unit
+// quaternions, and for nearly opposite directions a rotation that is wrong by up to 180 degrees (known finding, open).
+// Such inputs are generated only by set_rotation_ext_f/_d; the accuracy assertions of a case that has a subnormal-norm
+// argument are raised under the key below (and last, see check_set_rotation); nothing else carries this key.
+static const char* SUBNORMAL_KEY = "rotation-from-subnormal-length-vector";
+template <class T> static inline bool subnormal_norm (quad L) { return L < MIN_NORMAL<T> (); }
+
 // =====================================================================================
 // D. Quat::setAxisAngle and Matrix44::setAxisAngle describe the same rotation (= Rodrigues)
 // =====================================================================================
@@ -757,9 +774,9 @@ enum
     LD_ANGLE_MULTI_TURN,
     LD_AXIS_ALIGNED
 };
+template <class T> static void check_axis_angle (vp::Ctx& c, const Vec3<T>& ax, T ang);
 template <class T> static void axis_angle_case (vp::Ctx& c)
 {
-    const quad e = EPS<T> ();
     Vec3<T>    ax;
     switch (c.s.below (4))
     {
@@ -805,6 +822,12 @@ template <class T> static void axis_angle_case (vp::Ctx& c)
     if (std::abs (ang) > (T) 6.3) c.label (LD_ANGLE_MULTI_TURN);
     VP_NOTE (c, TN<T>::q () << " axis=" << vs (ax) << " angle=" << ang << " [" << hexf (ang) << "]");
     c.nt ((ax.x != 0) + (ax.y != 0) + (ax.z != 0) >= 2 && std::abs (ang) > (T) 0.01);
+    check_axis_angle<T> (c, ax, ang);
+}
+// all assertions on Quat::setAxisAngle / Matrix44::setAxisAngle for one non-zero axis and one angle (no draws)
+template <class T> static void check_axis_angle (vp::Ctx& c, const Vec3<T>& ax, T ang)
+{
+    const quad e = EPS<T> ();
 
     QM<3> R = rodrigues_rowvec<3> ((quad) ax.x, (quad) ax.y, (quad) ax.z, (quad) ang);
     Quat<T> q;
@@ -1033,13 +1056,40 @@ template <class T> static void gen_dir_pair (vp::Ctx& c, Vec3<T>& from, Vec3<T>&
     if (to.x == 0 && to.y == 0 && to.z == 0) to.y = 1;
 }
 
+template <class T> static void check_set_rotation (vp::Ctx& c, const Vec3<T>& from, const Vec3<T>& to);
+
 template <class T> static void set_rotation_case (vp::Ctx& c)
 {
-    const quad e = EPS<T> ();
     Vec3<T>    from, to;
     gen_dir_pair<T> (c, from, to);
     VP_NOTE (c, TN<T>::q () << " from=" << vs (from) << " to=" << vs (to));
+    check_set_rotation<T> (c, from, to);
+}
+
+// all assertions on setRotation(from,to) / rotationMatrix(from,to) for one pair of non-zero vectors (no draws)
+template <class T> static void check_set_rotation (vp::Ctx& c, const Vec3<T>& from, const Vec3<T>& to)
+{
     quad fl = vlenq (from), tl = vlenq (to);
+    const quad e    = EPS<T> ();
+    const bool subn = subnormal_norm<T> (fl) || subnormal_norm<T> (tl); // never in set_rotation_f/_d
+    // With a subnormal-norm argument the accuracy assertions are collected instead of thrown: the first one that fails is
+    // raised under SUBNORMAL_KEY at the very end, after every other assertion of the case (returns-this, affine part of
+    // rotationMatrix) has been made with its ordinary strict key.
+    std::string pending;
+#define SR_REQUIRE(cond, key, streamexpr)                                                                                                                                                                                  \
+    do                                                                                                                                                                                                                     \
+    {                                                                                                                                                                                                                      \
+        if (!(cond))                                                                                                                                                                                                       \
+        {                                                                                                                                                                                                                  \
+            if (!subn) VP_FAIL (c, key, streamexpr);                                                                                                                                                                       \
+            if (pending.empty ())                                                                                                                                                                                          \
+            {                                                                                                                                                                                                              \
+                std::ostringstream sr_o_;                                                                                                                                                                                  \
+                sr_o_ << std::setprecision (17) << streamexpr;                                                                                                                                                             \
+                pending = sr_o_.str ();                                                                                                                                                                                    \
+            }                                                                                                                                                                                                              \
+        }                                                                                                                                                                                                                  \
+    } while (0)
     quad fh[3] = { (quad) from.x / fl, (quad) from.y / fl, (quad) from.z / fl };
     quad th[3] = { (quad) to.x / tl, (quad) to.y / tl, (quad) to.z / tl };
     quad dot = fh[0] * th[0] + fh[1] * th[1] + fh[2] * th[2];
@@ -1079,15 +1129,15 @@ template <class T> static void set_rotation_case (vp::Ctx& c)
     VP_REQUIRE (c, &ref == &q, "setRotation-returns-this", "setRotation does not return *this");
     Q4          Qq = toQ (q);
     quad        n  = sqrtq (q_n2 (Qq));
-    if (!residue) MEAS ("E.unit", qabs (n - 1) / e); // measured worst 3.4 eps
-    VP_REQUIRE (c, qabs (n - 1) <= 12 * e, residue ? RESIDUE_KEY : "setRotation-not-unit", TN<T>::q () << " setRotation(" << vs (from) << "," << vs (to) << ")=" << qs (q) << " has length " << qstr (n) << " (|1-len| limit 12 eps); |f^+t^|=" << qstr (S));
+    if (!residue && !subn) MEAS ("E.unit", qabs (n - 1) / e); // measured worst 3.4 eps
+    SR_REQUIRE (qabs (n - 1) <= 12 * e, residue ? RESIDUE_KEY : "setRotation-not-unit", TN<T>::q () << " setRotation(" << vs (from) << "," << vs (to) << ")=" << qs (q) << " has length " << qstr (n) << " (|1-len| limit 12 eps); |f^+t^|=" << qstr (S));
     Q4   U = q_scale (Qq, 1 / n);
     quad got[3];
     q_rot (U, fh, got);
     for (int i = 0; i < 3; ++i)
     {
         quad d = qabs (got[i] - th[i]);
-        if (!residue) MEAS ("E.carry", d / e); // measured worst 4.3 eps
+        if (!residue && !subn) MEAS ("E.carry", d / e); // measured worst 4.3 eps
 #ifdef VP_MEASURE
         if (dot < 0 && S < (quad) 1e5 * e)
         {
@@ -1097,7 +1147,7 @@ template <class T> static void set_rotation_case (vp::Ctx& c)
             MEAS (b, d / e);
         }
 #endif
-        VP_REQUIRE (c, d <= 32 * e, residue ? RESIDUE_KEY : "setRotation-does-not-carry", TN<T>::q () << " q=setRotation(" << vs (from) << "," << vs (to) << ")=" << qs (q) << " rotates from^ to (" << qstr (got[0]) << " " << qstr (got[1]) << " " << qstr (got[2]) << ") but to^=(" << qstr (th[0]) << " " << qstr (th[1]) << " " << qstr (th[2]) << "): component " << i << " off by " << (double) (d / e) << " eps (limit 32); |f^+t^|=" << qstr (S));
+        SR_REQUIRE (d <= 32 * e, residue ? RESIDUE_KEY : "setRotation-does-not-carry", TN<T>::q () << " q=setRotation(" << vs (from) << "," << vs (to) << ")=" << qs (q) << " rotates from^ to (" << qstr (got[0]) << " " << qstr (got[1]) << " " << qstr (got[2]) << ") but to^=(" << qstr (th[0]) << " " << qstr (th[1]) << " " << qstr (th[2]) << "): component " << i << " off by " << (double) (d / e) << " eps (limit 32); |f^+t^|=" << qstr (S));
     }
     // rotationMatrix(from,to): proper orthonormal, affine, carries from^ onto to^
     Matrix44<T> M  = rotationMatrix (from, to);
@@ -1107,10 +1157,10 @@ template <class T> static void set_rotation_case (vp::Ctx& c)
     for (int i = 0; i < 3; ++i)
         for (int j = 0; j < 3; ++j)
             dG = qmax (dG, qabs (G.a[i][j] - (i == j ? 1 : 0)));
-    if (!residue) MEAS ("E.matrix-orthonormal", dG / e); // measured worst 26 eps (|q|^4 - 1 plus entry rounding)
-    VP_REQUIRE (c, dG <= 96 * e, residue ? RESIDUE_KEY : "rotationMatrix-not-orthonormal", TN<T>::q () << " rotationMatrix(" << vs (from) << "," << vs (to) << ")=" << mstr (M, 4) << " M*M^T deviates from I by " << (double) (dG / e) << " eps (limit 96)");
+    if (!residue && !subn) MEAS ("E.matrix-orthonormal", dG / e); // measured worst 26 eps (|q|^4 - 1 plus entry rounding)
+    SR_REQUIRE (dG <= 96 * e, residue ? RESIDUE_KEY : "rotationMatrix-not-orthonormal", TN<T>::q () << " rotationMatrix(" << vs (from) << "," << vs (to) << ")=" << mstr (M, 4) << " M*M^T deviates from I by " << (double) (dG / e) << " eps (limit 96)");
     quad dt = det (QMm);
-    VP_REQUIRE (c, qabs (dt - 1) <= 160 * e, residue ? RESIDUE_KEY : "rotationMatrix-det", TN<T>::q () << " rotationMatrix(" << vs (from) << "," << vs (to) << ") has determinant " << qstr (dt));
+    SR_REQUIRE (qabs (dt - 1) <= 160 * e, residue ? RESIDUE_KEY : "rotationMatrix-det", TN<T>::q () << " rotationMatrix(" << vs (from) << "," << vs (to) << ") has determinant " << qstr (dt));
     for (int i = 0; i < 4; ++i)
         for (int j = 0; j < 4; ++j)
             if (i == 3 || j == 3) VP_REQUIRE (c, M[i][j] == (i == j ? (T) 1 : (T) 0), "rotationMatrix-affine-part", "rotationMatrix [" << i << "][" << j << "]=" << M[i][j]);
@@ -1118,9 +1168,11 @@ template <class T> static void set_rotation_case (vp::Ctx& c)
     {
         quad g = fh[0] * QMm.a[0][j] + fh[1] * QMm.a[1][j] + fh[2] * QMm.a[2][j];
         quad d = qabs (g - th[j]);
-        if (!residue) MEAS ("E.matrix-carry", d / e); // measured worst 11.5 eps
-        VP_REQUIRE (c, d <= 64 * e, residue ? RESIDUE_KEY : "rotationMatrix-does-not-carry", TN<T>::q () << " from^ * rotationMatrix(" << vs (from) << "," << vs (to) << ") component " << j << " = " << qstr (g) << " but to^ has " << qstr (th[j]) << " (off by " << (double) (d / e) << " eps, limit 64); |f^+t^|=" << qstr (S));
+        if (!residue && !subn) MEAS ("E.matrix-carry", d / e); // measured worst 11.5 eps
+        SR_REQUIRE (d <= 64 * e, residue ? RESIDUE_KEY : "rotationMatrix-does-not-carry", TN<T>::q () << " from^ * rotationMatrix(" << vs (from) << "," << vs (to) << ") component " << j << " = " << qstr (g) << " but to^ has " << qstr (th[j]) << " (off by " << (double) (d / e) << " eps, limit 64); |f^+t^|=" << qstr (S));
     }
+    if (!pending.empty ()) VP_FAIL (c, SUBNORMAL_KEY, "(an argument has a subnormal norm: |from|=" << qstr (fl) << " |to|=" << qstr (tl) << ") " << pending);
+#undef SR_REQUIRE
 }
 #define C10_SR(name, T)                                                                                                                                                                                                                                                                                                                                                                                                                                      \
     VP_RANDOM (name, 400000, 8000000, "direction pairs from 8 classes: small integers; independent random; angle sweep (pi-10^-k, 10^-k, pi/2+-10^-k, k pi/8, uniform) in a random plane; exactly opposite (-from*2^k); nearly opposite (-from*s, s not a power of 2, optionally perturbed by 2^-k or 1-4 ulps); (nearly) parallel; magnitudes 2^-20..2^21; directions with a zero/tiny component or two equal components; every case non-trivial; branches labelled") \
@@ -1132,6 +1184,393 @@ template <class T> static void set_rotation_case (vp::Ctx& c)
     VP_FUZZABLE (name)
 C10_SR (set_rotation_f, float)
 C10_SR (set_rotation_d, double)
+
+// =====================================================================================
+// E2. the same assertions with vector LENGTHS over the whole finite range: "every pair of non-zero vectors"
+//     (lengths from the smallest subnormal up to sqrt(max)/4, independently for from and to; the angle classes of the
+//     property: 0, tiny, pi/2, pi - 10^-k, exactly opposite).  Squares, dot products and |from|*|to| of such vectors
+//     underflow to zero or overflow unless the implementation normalises first.
+// =====================================================================================
+template <class T> struct XR;
+template <> struct XR<float>
+{
+    // [1,2) * 2^e:  e >= eden is non-zero, e >= enorm is normal, e <= emax stays below sqrt(max)/4 (squares summable),
+    // e <= vmax stays below max/16 (sums of a few products of such a component with factors <= 1 do not overflow)
+    static const int eden = -149, enorm = -126, emax = 61, vmax = 122, kpi = 7;
+};
+template <> struct XR<double>
+{
+    static const int eden = -1074, enorm = -1022, emax = 509, vmax = 1018, kpi = 15;
+};
+enum
+{
+    LX_PRODUCT_UNDERFLOWS = LE_TINY_ANGLE + 1,
+    LX_SUBNORMAL_NORM,
+    LX_TINY_NORMAL,
+    LX_HUGE,
+    LX_TINY_AND_HUGE,
+    LX_ANGLE_ZERO_OR_TINY,
+    LX_ANGLE_RIGHT,
+    LX_ANGLE_PI_MINUS_10K,
+    LX_OPPOSITE_POW2,
+    LX_OPPOSITE_SCALED
+};
+// random direction (long double, unit), sometimes with a zero / tiny component or two components of equal magnitude
+static inline void ext_dir (vp::Src& s, long double o[3])
+{
+    unit3 (s, o);
+    if (s.chance (32))
+    {
+        int k = (int) s.below (3);
+        if (s.coin ())
+            o[k] = 0;
+        else
+        {
+            long double p = draw_pow10 (s, 11);
+            o[k] *= p;
+        }
+    }
+    if (s.chance (24))
+    {
+        int         k  = (int) s.below (3);
+        long double sg = draw_sign (s);
+        o[(k + 1) % 3] = sg * o[k];
+    }
+    long double l = sqrtl (o[0] * o[0] + o[1] * o[1] + o[2] * o[2]);
+    if (l == 0)
+    {
+        o[0] = 1;
+        l    = 1;
+    }
+    for (int i = 0; i < 3; ++i)
+        o[i] /= l;
+}
+// unit vector orthogonal to the unit vector f, in a random direction
+static inline void ext_perp (vp::Src& s, const long double f[3], long double p[3])
+{
+    long double g[3];
+    unit3 (s, g);
+    long double d = f[0] * g[0] + f[1] * g[1] + f[2] * g[2];
+    for (int i = 0; i < 3; ++i)
+        p[i] = g[i] - d * f[i];
+    long double l = sqrtl (p[0] * p[0] + p[1] * p[1] + p[2] * p[2]);
+    if (l < 1e-6L)
+    {
+        int         k     = fabsl (f[0]) < 0.6L ? 0 : 1;
+        long double ek[3] = { 0, 0, 0 };
+        ek[k]             = 1;
+        d                 = f[k];
+        for (int i = 0; i < 3; ++i)
+            p[i] = ek[i] - d * f[i];
+        l = sqrtl (p[0] * p[0] + p[1] * p[1] + p[2] * p[2]);
+    }
+    for (int i = 0; i < 3; ++i)
+        p[i] /= l;
+}
+// (T) (d * L), never the zero vector (the APIs require non-zero vectors): if everything rounds to zero the largest
+// component becomes +-denorm_min
+template <class T> static inline Vec3<T> scaled_dir (const long double d[3], long double L)
+{
+    Vec3<T> v ((T) (d[0] * L), (T) (d[1] * L), (T) (d[2] * L));
+    if (v.x == 0 && v.y == 0 && v.z == 0)
+    {
+        int k = 0;
+        if (fabsl (d[1]) > fabsl (d[k])) k = 1;
+        if (fabsl (d[2]) > fabsl (d[k])) k = 2;
+        v[k] = d[k] < 0 ? -std::numeric_limits<T>::denorm_min () : std::numeric_limits<T>::denorm_min ();
+    }
+    return v;
+}
+// mantissa in [1,2): exactly 1 in a quarter of the cases
+static inline long double draw_mant (vp::Src& s)
+{
+    bool        one = s.chance (64);
+    long double u   = (long double) s.unit ();
+    return one ? 1.0L : 1.0L + u;
+}
+template <class T> static void gen_ext_pair (vp::Ctx& c, Vec3<T>& from, Vec3<T>& to)
+{
+    typedef XR<T> R;
+    vp::Src&      s  = c.s;
+    int           ef = 0, et = 0;
+    switch (s.below (8))
+    {
+        case 0:
+        case 1: // independent, whole range
+            ef = (int) s.range (R::eden, R::emax);
+            et = (int) s.range (R::eden, R::emax);
+            break;
+        case 2: { // |from|*|to| within 2^+-6 of the smallest subnormal (products underflow to zero / to a subnormal)
+            ef    = (int) s.range (R::enorm, R::eden - R::enorm);
+            int j = (int) s.range (-6, 6);
+            et    = R::eden - ef + j;
+            break;
+        }
+        case 3: // both short but normal: every product of two components underflows completely
+            ef = (int) s.range (R::enorm, R::enorm / 2);
+            et = (int) s.range (R::enorm, R::enorm / 2);
+            break;
+        case 4: // both near sqrt(max)/4
+            ef = (int) s.range (R::emax - 8, R::emax);
+            et = (int) s.range (R::emax - 8, R::emax);
+            break;
+        case 5: { // one short, one long
+            int  a    = (int) s.range (R::enorm, R::enorm + 8);
+            int  b    = (int) s.range (R::emax - 8, R::emax);
+            bool swap = s.coin ();
+            ef        = swap ? b : a;
+            et        = swap ? a : b;
+            break;
+        }
+        case 6: { // subnormal norm (one or both)
+            int  a    = (int) s.range (R::eden, R::enorm - 1);
+            int  b    = (int) s.range (R::eden, R::emax);
+            bool swap = s.coin ();
+            ef        = swap ? b : a;
+            et        = swap ? a : b;
+            break;
+        }
+        default: // moderate (control)
+            ef = 0;
+            et = (int) s.range (-2, 2);
+            break;
+    }
+    if (et < R::eden) et = R::eden;
+    if (et > R::emax) et = R::emax;
+    long double mf = draw_mant (s);
+    long double mt = draw_mant (s);
+    long double f[3], p[3], d[3];
+    ext_dir (s, f);
+    ext_perp (s, f, p);
+    long double a    = 0;
+    bool        anti = false;
+    switch (s.below (8))
+    {
+        case 0: // exactly the same direction (before rounding)
+            a = 0;
+            c.label (LX_ANGLE_ZERO_OR_TINY);
+            break;
+        case 1:
+            a = draw_pow10_mant (s, TN<T>::maxk ());
+            c.label (LX_ANGLE_ZERO_OR_TINY);
+            break;
+        case 2: {
+            long double sg = draw_sign (s);
+            long double pw = draw_pow10 (s, TN<T>::maxk (), 1);
+            long double u  = (long double) s.unit ();
+            a              = PI_L / 2 + sg * pw * u;
+            c.label (LX_ANGLE_RIGHT);
+            break;
+        }
+        case 3:
+        case 4: { // pi - 10^-k, k = 1..7 (float) / 1..15 (double), optionally times [1,2)
+            int         k = (int) s.range (1, R::kpi);
+            bool        m = s.coin ();
+            long double u = (long double) s.unit ();
+            a             = PI_L - pow10neg (k) * (m ? 1 + u : 1.0L);
+            c.label (LX_ANGLE_PI_MINUS_10K);
+            break;
+        }
+        case 5: // to = -from * 2^(et-ef) exactly (same significands)
+            anti = true;
+            mt   = mf;
+            c.label (LX_OPPOSITE_POW2);
+            break;
+        case 6: // to = -from * c, c not a power of two: opposite up to the rounding of the components
+            anti = true;
+            c.label (LX_OPPOSITE_SCALED);
+            break;
+        default: a = PI_L * (long double) s.unit (); break;
+    }
+    if (anti)
+        for (int i = 0; i < 3; ++i)
+            d[i] = -f[i];
+    else
+    {
+        long double ca = cosl (a), sa = sinl (a);
+        for (int i = 0; i < 3; ++i)
+            d[i] = ca * f[i] + sa * p[i];
+    }
+    from = scaled_dir<T> (f, std::ldexp (mf, ef));
+    to   = scaled_dir<T> (d, std::ldexp (mt, et));
+}
+template <class T> static void label_ext_lengths (vp::Ctx& c, quad fl, quad tl)
+{
+    typedef XR<T> R;
+    const quad    mn = MIN_NORMAL<T> (), top = (quad) std::ldexp (1.0L, R::emax - 8);
+    if (fl * tl < DENORM_MIN<T> ()) c.label (LX_PRODUCT_UNDERFLOWS);
+    if (fl < mn || tl < mn) c.label (LX_SUBNORMAL_NORM);
+    if ((fl >= mn && fl < 256 * mn) || (tl >= mn && tl < 256 * mn)) c.label (LX_TINY_NORMAL);
+    if (fl >= top || tl >= top) c.label (LX_HUGE);
+    if ((fl < 1024 * mn && tl >= top / 2) || (tl < 1024 * mn && fl >= top / 2)) c.label (LX_TINY_AND_HUGE);
+}
+template <class T> static void set_rotation_ext_case (vp::Ctx& c)
+{
+    Vec3<T> from, to;
+    gen_ext_pair<T> (c, from, to);
+    VP_NOTE (c, TN<T>::q () << " from=" << vs (from) << " to=" << vs (to));
+    label_ext_lengths<T> (c, vlenq (from), vlenq (to));
+    check_set_rotation<T> (c, from, to);
+}
+#define C10_SRX(name, T)                                                                                                                                                                                                                                                                                                                                                                                                                                                                                                                                  \
+    VP_RANDOM (name, 300000, 6000000, "from = f*Lf, to = d*Lt: lengths [1,2)*2^e with e from 8 classes (independent over the whole range smallest subnormal..sqrt(max)/4; |from||to| within 2^+-6 of the smallest subnormal; both short but normal; both near sqrt(max)/4; one short one long; subnormal norm; moderate) x angle classes (0; 10^-k; pi/2+-10^-k; pi-10^-k for k=1..7/15; d=-f with equal significands (to=-from*2^j); d=-f scaled by a non-power of 2; uniform); same assertions as set_rotation; every case non-trivial") \
+    {                                                                                                                                                                                                                                                                                                                                                                                                                                                                                                                                                     \
+        set_rotation_ext_case<T> (c);                                                                                                                                                                                                                                                                                                                                                                                                                                                                                                                     \
+    }                                                                                                                                                                                                                                                                                                                                                                                                                                                                                                                                                     \
+    VP_LABELS (name, "angle_le_90", "angle_gt_90", "angle_near_90", "exactly_opposite_after_normalisation", "fallback_axis_x", "fallback_axis_y", "fallback_axis_z", "nearly_opposite", "antipodal_residue", "parallel", "scaled", "tiny_angle", "length_product_underflows", "subnormal_norm", "tiny_normal_norm", "norm_near_sqrt_max", "one_tiny_one_huge", "angle_0_or_10^-k", "angle_pi/2", "angle_pi-10^-k", "opposite_times_2^j", "opposite_times_c")                                                                                              \
+    VP_REQUIRE_LABELS (name, "angle_le_90", "angle_gt_90", "angle_near_90", "exactly_opposite_after_normalisation", "fallback_axis_x", "fallback_axis_y", "fallback_axis_z", "nearly_opposite", "parallel", "tiny_angle", "length_product_underflows", "subnormal_norm", "tiny_normal_norm", "norm_near_sqrt_max", "one_tiny_one_huge", "angle_0_or_10^-k", "angle_pi/2", "angle_pi-10^-k", "opposite_times_2^j", "opposite_times_c")
+C10_SRX (set_rotation_ext_f, float)
+C10_SRX (set_rotation_ext_d, double)
+
+// =====================================================================================
+// D2 / A2. setAxisAngle with axis lengths over the whole finite range, and vector rotation with |v| over the whole range
+// =====================================================================================
+enum
+{
+    LDX_TINY_NORMAL,
+    LDX_HUGE,
+    LDX_AXIS_ALIGNED
+};
+template <class T> static void axis_angle_ext_case (vp::Ctx& c)
+{
+    typedef XR<T> R;
+    vp::Src&      s  = c.s;
+    int           ea = 0;
+    // The axis norm is kept a NORMAL number (e >= enorm+1).  An axis of subnormal norm cannot be normalised to unit length
+    // (see SUBNORMAL_KEY above) and C10 states setAxisAngle only for axis()/angle() of unit quaternions and for the
+    // agreement of Quat and Matrix44, so such axes are outside the statement and are not generated.
+    switch (s.below (4))
+    {
+        case 0:
+        case 1: ea = (int) s.range (R::enorm + 1, R::emax); break;
+        case 2: ea = (int) s.range (R::enorm + 1, R::enorm + 8); break; // squares underflow completely
+        default: ea = (int) s.range (R::emax - 8, R::emax); break;
+    }
+    long double m = draw_mant (s);
+    long double f[3];
+    if (s.chance (40))
+    {
+        int k = (int) s.below (3);
+        long double sg = draw_sign (s);
+        f[0] = f[1] = f[2] = 0;
+        f[k]               = sg;
+    }
+    else
+        ext_dir (s, f);
+    Vec3<T> ax = scaled_dir<T> (f, std::ldexp (m, ea));
+    T       ang;
+    switch (s.below (3))
+    {
+        case 0: {
+            long double a  = (long double) s.range (-4, 4) * PI_L / 2;
+            bool        pt = s.coin ();
+            long double d  = draw_signed_pow10 (s, TN<T>::maxk ());
+            ang            = (T) (pt ? a + d : a);
+            break;
+        }
+        case 1: ang = (T) s.uniform (-4 * 3.141592653589793, 4 * 3.141592653589793); break;
+        default: ang = (T) s.uniform (-3.141592653589793, 3.141592653589793); break;
+    }
+    VP_NOTE (c, TN<T>::q () << " axis=" << vs (ax) << " angle=" << ang << " [" << hexf (ang) << "]");
+    quad al = vlenq (ax);
+    if (al >= MIN_NORMAL<T> () && al < 256 * MIN_NORMAL<T> ()) c.label (LDX_TINY_NORMAL);
+    if (al >= (quad) std::ldexp (1.0L, R::emax - 8)) c.label (LDX_HUGE);
+    if ((ax.x != 0) + (ax.y != 0) + (ax.z != 0) == 1) c.label (LDX_AXIS_ALIGNED);
+    c.nt (std::abs (ang) > (T) 0.01);
+    check_axis_angle<T> (c, ax, ang);
+}
+#define C10_AAX(name, T)                                                                                                                                                                                                                                                                                        \
+    VP_RANDOM (name, 100000, 2000000, "axis = direction (random, or a coordinate axis) * [1,2)*2^e, e such that the norm is a normal number: 2*smallest normal..sqrt(max)/4 (1/2), just above the smallest normal, near sqrt(max)/4 (axes of subnormal norm are outside the statement: they cannot be normalised); angle k pi/2 +-10^-k, uniform +-4pi / +-pi; same assertions as axis_angle; non-trivial = |angle| > 0.01") \
+    {                                                                                                                                                                                                                                                                                                           \
+        axis_angle_ext_case<T> (c);                                                                                                                                                                                                                                                                             \
+    }                                                                                                                                                                                                                                                                                                           \
+    VP_LABELS (name, "tiny_normal_norm", "norm_near_sqrt_max", "axis_aligned")                                                                                                                                                                                                                \
+    VP_REQUIRE_LABELS (name, "tiny_normal_norm", "norm_near_sqrt_max", "axis_aligned")
+C10_AAX (axis_angle_ext_f, float)
+C10_AAX (axis_angle_ext_d, double)
+
+enum
+{
+    LAX_SUBNORMAL = QC_NCLASS,
+    LAX_TINY_NORMAL,
+    LAX_HUGE,
+    LAX_MIXED
+};
+template <class T> static void rotate_ext_case (vp::Ctx& c)
+{
+    typedef XR<T> R;
+    vp::Src&      s = c.s;
+    int           cls;
+    Quat<T>       q = gen_unit_quat<T> (s, cls);
+    c.label (cls);
+    Vec3<T> v;
+    if (s.chance (160))
+    {
+        int ev = 0;
+        switch (s.below (4))
+        {
+            case 0: ev = (int) s.range (R::eden, R::vmax); break;
+            case 1: ev = (int) s.range (R::eden, R::enorm + 8); break;
+            case 2: ev = (int) s.range (R::vmax - 8, R::vmax); break;
+            default: ev = (int) s.range (R::enorm, R::vmax); break;
+        }
+        long double m = draw_mant (s);
+        long double f[3];
+        ext_dir (s, f);
+        v = scaled_dir<T> (f, std::ldexp (m, ev));
+    }
+    else
+    {
+        // independent component exponents
+        for (int i = 0; i < 3; ++i)
+        {
+            int         ev = (int) s.range (R::eden, R::vmax);
+            long double m  = draw_mant (s);
+            long double sg = draw_sign (s);
+            v[i]           = (T) (sg * std::ldexp (m, ev));
+        }
+        c.label (LAX_MIXED);
+    }
+    VP_NOTE (c, TN<T>::q () << " q=" << qs (q) << " v=" << vs (v));
+    Q4   U     = q_unit (toQ (q));
+    quad vq[3] = { (quad) v.x, (quad) v.y, (quad) v.z }, want[3];
+    q_rot (U, vq, want);
+    quad vl = vlenq (v);
+    if (vl < MIN_NORMAL<T> ()) c.label (LAX_SUBNORMAL);
+    if (vl >= MIN_NORMAL<T> () && vl < 256 * MIN_NORMAL<T> ()) c.label (LAX_TINY_NORMAL);
+    if (vl >= (quad) std::ldexp (1.0L, R::vmax - 8)) c.label (LAX_HUGE);
+    c.nt (generic_rotation (U));
+    // same bound as rotate_f/_d plus the absolute rounding quantum of subnormal results (each output component is a sum
+    // of fewer than 16 terms, each rounded to a multiple of denorm_min): measured worst 0.29 of this bound (v*q)
+    quad           tol = 16 * EPS<T> () * vl + 16 * DENORM_MIN<T> ();
+    Vec3<T>        r[6];
+    const char*    nm[6] = { "rotateVector", "v*q", "v*toMatrix33", "toMatrix44.multDirMatrix", "toMatrix44.multVecMatrix", "v*toMatrix44" };
+    Matrix33<T>    M3 = q.toMatrix33 ();
+    Matrix44<T>    M4 = q.toMatrix44 ();
+    r[0]              = q.rotateVector (v);
+    r[1]              = v * q;
+    r[2]              = v * M3;
+    M4.multDirMatrix (v, r[3]);
+    M4.multVecMatrix (v, r[4]);
+    r[5] = v * M4;
+    for (int k = 0; k < 6; ++k)
+        for (int i = 0; i < 3; ++i)
+        {
+            quad d = qabs ((quad) r[k][i] - want[i]);
+            if (!(d == d)) d = (quad) 1e300;
+            MEAS (std::string ("A2.") + nm[k] + "/tol", d / tol);
+            VP_REQUIRE (c, d <= tol, std::string ("rotate-extreme-length/") + nm[k], TN<T>::q () << " " << nm[k] << " q=" << qs (q) << " v=" << vs (v) << " component " << i << " = " << r[k][i] << " exact " << qstr (want[i]) << " error " << (double) (d / (EPS<T> () * vl)) << " eps|v| (limit 16 eps|v| + 16 denorm_min)");
+        }
+}
+#define C10_ROTX(name, T)                                                                                                                                                                                                                                                                                                        \
+    VP_RANDOM (name, 100000, 2000000, "unit quaternion from the 7 classes x vector: direction * [1,2)*2^e with e over smallest subnormal..max/16 (whole range, near the bottom, near the top, normal range), or three components with independent exponents over that range; oracle = quad sandwich product; non-trivial = generic rotation") \
+    {                                                                                                                                                                                                                                                                                                                            \
+        rotate_ext_case<T> (c);                                                                                                                                                                                                                                                                                                  \
+    }                                                                                                                                                                                                                                                                                                                            \
+    VP_LABELS (name, C10_QLABELS, "v_subnormal_norm", "v_tiny_normal_norm", "v_near_max", "v_mixed_exponents")                                                                                                                                                                                                                   \
+    VP_REQUIRE_LABELS (name, "v_subnormal_norm", "v_tiny_normal_norm", "v_near_max", "v_mixed_exponents")
+C10_ROTX (rotate_ext_f, float)
+C10_ROTX (rotate_ext_d, double)
 
 // =====================================================================================
 // F. angle4D, slerp, slerpShortestArc
@@ -1412,5 +1851,481 @@ C10_SP (spline_f, float)
 C10_SP (spline_d, double)
 VP_REQUIRE_LABELS (spline_d, "tangent_checked", "collinear_keys")
 VP_REQUIRE_LABELS (spline_f, "collinear_keys")
+
+// =====================================================================================
+// H. previous contents of the destination: every function that sets an object wholesale must give the same object,
+//    slot for slot and bit for bit, whatever the object held before the call (a re-used matrix / quaternion)
+// =====================================================================================
+// junk scalars: 7 fills
+enum
+{
+    JS_NICE,   // small non-zero values different from 1
+    JS_NAN,    // a slot that is not overwritten, or an old value that enters the arithmetic, stays NaN
+    JS_MAX,
+    JS_INF,
+    JS_WIDE,   // +-[1,2)*2^e, e over +-vexp
+    JS_ZERO,
+    JS_DENORM,
+    JS_N
+};
+template <class T> static inline T junk_scalar (vp::Src& s, int kind)
+{
+    typedef std::numeric_limits<T> L;
+    switch (kind)
+    {
+        case JS_NICE: {
+            T v = gen::nice<T> (s);
+            if (v == 0 || v == 1) v = (T) 3;
+            return v;
+        }
+        case JS_NAN: return L::quiet_NaN ();
+        case JS_MAX: return s.coin () ? L::max () : -L::max ();
+        case JS_INF: return s.coin () ? L::infinity () : -L::infinity ();
+        case JS_WIDE: {
+            int ex = (int) s.range (-TN<T>::vexp (), TN<T>::vexp ());
+            return gen::with_exp<T> (s, ex);
+        }
+        case JS_ZERO: return (T) 0;
+        default: return s.coin () ? L::denorm_min () : -L::denorm_min ();
+    }
+}
+// junk 4x4 matrices: 3 structured fills (what a transform matrix typically held before) + the 7 scalar fills in all slots
+enum
+{
+    JM_TRANSLATION, // identity + translation row
+    JM_PROJECTIVE,  // identity + non-zero last column
+    JM_W,           // identity with [3][3] != 1
+    JM_ALL_FIRST,   // JM_ALL_FIRST + k: all 16 slots filled with scalar fill k
+    JM_N = JM_ALL_FIRST + JS_N
+};
+template <class T> static Matrix44<T> junk44 (vp::Src& s, int kind)
+{
+    Matrix44<T> m; // identity
+    switch (kind)
+    {
+        case JM_TRANSLATION:
+            for (int j = 0; j < 3; ++j)
+                m[3][j] = junk_scalar<T> (s, JS_NICE);
+            break;
+        case JM_PROJECTIVE:
+            for (int i = 0; i < 3; ++i)
+                m[i][3] = junk_scalar<T> (s, JS_NICE);
+            break;
+        case JM_W: m[3][3] = junk_scalar<T> (s, JS_NICE); break;
+        default:
+            for (int i = 0; i < 4; ++i)
+                for (int j = 0; j < 4; ++j)
+                    m[i][j] = junk_scalar<T> (s, kind - JM_ALL_FIRST);
+            break;
+    }
+    return m;
+}
+template <class T> static Matrix33<T> junk33 (vp::Src& s, int kind) // kind: scalar fill
+{
+    Matrix33<T> m;
+    for (int i = 0; i < 3; ++i)
+        for (int j = 0; j < 3; ++j)
+            m[i][j] = junk_scalar<T> (s, kind);
+    return m;
+}
+template <class T> static Quat<T> junkq (vp::Src& s, int kind) // kind: scalar fill
+{
+    T a = junk_scalar<T> (s, kind);
+    T b = junk_scalar<T> (s, kind);
+    T cc = junk_scalar<T> (s, kind);
+    T d = junk_scalar<T> (s, kind);
+    return Quat<T> (a, b, cc, d);
+}
+static const char* junk_scalar_name (int k)
+{
+    static const char* n[JS_N] = { "small values", "NaN", "+-max", "+-inf", "+-[1,2)*2^e", "zero", "+-denorm_min" };
+    return n[k];
+}
+static const char* junk44_name (int k)
+{
+    return k == JM_TRANSLATION ? "identity + translation row" : k == JM_PROJECTIVE ? "identity + last column" : k == JM_W ? "identity with [3][3] != 1" : junk_scalar_name (k - JM_ALL_FIRST);
+}
+// first slot where two objects differ bitwise (NaN == NaN), -1 if none
+template <class T> static inline int diff44 (const Matrix44<T>& a, const Matrix44<T>& b)
+{
+    for (int i = 0; i < 4; ++i)
+        for (int j = 0; j < 4; ++j)
+            if (!same<T> (a[i][j], b[i][j])) return 4 * i + j;
+    return -1;
+}
+template <class T> static inline int diff33 (const Matrix33<T>& a, const Matrix33<T>& b)
+{
+    for (int i = 0; i < 3; ++i)
+        for (int j = 0; j < 3; ++j)
+            if (!same<T> (a[i][j], b[i][j])) return 3 * i + j;
+    return -1;
+}
+template <class T> static inline int diffq (const Quat<T>& a, const Quat<T>& b)
+{
+    for (int i = 0; i < 4; ++i)
+        if (!same<T> (a[i], b[i])) return i;
+    return -1;
+}
+template <class T> static inline int diffv (const Vec3<T>& a, const Vec3<T>& b)
+{
+    for (int i = 0; i < 3; ++i)
+        if (!same<T> (a[i], b[i])) return i;
+    return -1;
+}
+enum
+{
+    LH_ROT_LE90,
+    LH_ROT_GT90,
+    LH_ROT_OPPOSITE,
+    LH_AXIS_SCALED,
+    LH_NONUNIT_Q
+};
+template <class T> static void dest_case (vp::Ctx& c)
+{
+    vp::Src& s = c.s;
+    // ---- arguments
+    Vec3<T> ax;
+    switch (s.below (3))
+    {
+        case 0: {
+            ax = draw_vec3<T> ([&] { return (T) s.range (-3, 3); });
+            if (ax.x == 0 && ax.y == 0 && ax.z == 0)
+            {
+                int k = (int) s.below (3);
+                ax[k] = 1;
+            }
+            break;
+        }
+        case 1: {
+            long double n[3];
+            unit3 (s, n);
+            ax = Vec3<T> ((T) n[0], (T) n[1], (T) n[2]);
+            break;
+        }
+        default: {
+            int e0 = (int) s.range (-30, 30);
+            for (int i = 0; i < 3; ++i)
+                ax[i] = gen::with_exp<T> (s, e0 - (int) s.below (12));
+            c.label (LH_AXIS_SCALED);
+            break;
+        }
+    }
+    T ang = s.coin () ? (T) s.uniform (-2 * 3.141592653589793, 2 * 3.141592653589793) : (T) ((long double) s.range (-4, 4) * PI_L / 2);
+    Vec3<T> from, to;
+    gen_dir_pair<T> (c, from, to);
+    int     qcls;
+    Quat<T> q = gen_unit_quat<T> (s, qcls);
+    if (s.chance (64))
+    {
+        int ex = (int) s.range (-10, 10);
+        q      = q * gen::with_exp<T> (s, ex);
+        c.label (LH_NONUNIT_Q);
+    }
+    VP_NOTE (c, TN<T>::q () << " axis=" << vs (ax) << " angle=" << ang << " from=" << vs (from) << " to=" << vs (to) << " q=" << qs (q) << "; each destination pre-filled with every junk fill");
+    {
+        // which branch of setRotation the pair takes (decided on the implementation's own normalised vectors)
+        Vec3<T> f0 = from.normalized (), t0 = to.normalized (), h = f0 + t0;
+        if ((f0 ^ t0) >= 0)
+            c.label (LH_ROT_LE90);
+        else if ((h ^ h) > 16 * std::numeric_limits<T>::epsilon () * std::numeric_limits<T>::epsilon ())
+            c.label (LH_ROT_GT90);
+        else
+            c.label (LH_ROT_OPPOSITE);
+    }
+    c.nt (true);
+
+    // ---- reference results on fresh (default-constructed) objects; their VALUES are checked by sub-checks A-E
+    Matrix44<T> F_maa;
+    F_maa.setAxisAngle (ax, ang);
+    Quat<T> F_qaa;
+    F_qaa.setAxisAngle (ax, ang);
+    Quat<T> F_rot;
+    F_rot.setRotation (from, to);
+    const Matrix44<T> F_rm  = rotationMatrix (from, to);
+    const Matrix44<T> F_m44 = q.toMatrix44 ();
+    const Matrix33<T> F_m33 = q.toMatrix33 ();
+    const Quat<T>     F_xq  = extractQuat (F_m44);
+    const Quat<T>     F_inv = q.inverse ();
+    const Quat<T>     F_nrm = q.normalized ();
+
+    // ---- 4x4 destinations
+    for (int k = 0; k < JM_N; ++k)
+    {
+        const Matrix44<T> J = junk44<T> (s, k);
+        int               d;
+        {
+            Matrix44<T>        M   = J;
+            const Matrix44<T>& ref = M.setAxisAngle (ax, ang);
+            VP_REQUIRE (c, &ref == &M, "m44-setAxisAngle-returns-this", "Matrix44::setAxisAngle does not return *this");
+            d = diff44 (M, F_maa);
+            VP_REQUIRE (c, d < 0, "m44-setAxisAngle/depends-on-previous-contents", TN<T>::q () << " Matrix44::setAxisAngle(" << vs (ax) << "," << ang << ") on a matrix that held [" << junk44_name (k) << "] " << mstr (J, 4) << " gives " << mstr (M, 4) << " but on a fresh matrix " << mstr (F_maa, 4) << " (slot [" << d / 4 << "][" << d % 4 << "])");
+        }
+        {
+            Matrix44<T> M = J;
+            M             = rotationMatrix (from, to);
+            d             = diff44 (M, F_rm);
+            VP_REQUIRE (c, d < 0, "rotationMatrix/depends-on-previous-contents", TN<T>::q () << " M = rotationMatrix(" << vs (from) << "," << vs (to) << ") assigned to a matrix that held [" << junk44_name (k) << "] gives " << mstr (M, 4) << " instead of " << mstr (F_rm, 4));
+            M = J;
+            M = q.toMatrix44 ();
+            d = diff44 (M, F_m44);
+            VP_REQUIRE (c, d < 0, "toMatrix44/depends-on-previous-contents", TN<T>::q () << " M = q.toMatrix44() assigned to a matrix that held [" << junk44_name (k) << "] gives " << mstr (M, 4) << " instead of " << mstr (F_m44, 4) << " q=" << qs (q));
+        }
+        if (k >= JM_ALL_FIRST)
+        {
+            // extractQuat is documented to extract "the rotation from the given 4x4 matrix": what the matrix holds outside
+            // its rotation block (translation row, last column) does not take part
+            Matrix44<T> M = J;
+            for (int i = 0; i < 3; ++i)
+                for (int j = 0; j < 3; ++j)
+                    M[i][j] = F_m44[i][j];
+            Quat<T> x = extractQuat (M);
+            d         = diffq (x, F_xq);
+            VP_REQUIRE (c, d < 0, "extractQuat/reads-outside-rotation-block", TN<T>::q () << " extractQuat of " << mstr (M, 4) << " = " << qs (x) << " but with an identity last row/column " << qs (F_xq));
+        }
+    }
+    // ---- quaternion / 3x3 destinations
+    for (int k = 0; k < JS_N; ++k)
+    {
+        const Quat<T> J = junkq<T> (s, k);
+        int           d;
+        {
+            Quat<T>  A   = J;
+            Quat<T>& ref = A.setAxisAngle (ax, ang);
+            VP_REQUIRE (c, &ref == &A, "setAxisAngle-returns-this", "Quat::setAxisAngle does not return *this");
+            d = diffq (A, F_qaa);
+            VP_REQUIRE (c, d < 0, "quat-setAxisAngle/depends-on-previous-contents", TN<T>::q () << " Quat::setAxisAngle(" << vs (ax) << "," << ang << ") on a quaternion that held [" << junk_scalar_name (k) << "] " << qs (J) << " gives " << qs (A) << " but on a fresh one " << qs (F_qaa));
+        }
+        {
+            Quat<T>  A   = J;
+            Quat<T>& ref = A.setRotation (from, to);
+            VP_REQUIRE (c, &ref == &A, "setRotation-returns-this", "setRotation does not return *this");
+            d = diffq (A, F_rot);
+            VP_REQUIRE (c, d < 0, "setRotation/depends-on-previous-contents", TN<T>::q () << " setRotation(" << vs (from) << "," << vs (to) << ") on a quaternion that held [" << junk_scalar_name (k) << "] " << qs (J) << " gives " << qs (A) << " but on a fresh one " << qs (F_rot));
+        }
+        {
+            Quat<T> A = J;
+            A         = extractQuat (F_m44);
+            d         = diffq (A, F_xq);
+            VP_REQUIRE (c, d < 0, "extractQuat/depends-on-previous-contents", TN<T>::q () << " A = extractQuat(M) assigned to a quaternion that held " << qs (J) << " gives " << qs (A) << " instead of " << qs (F_xq));
+            A = J;
+            A = q;
+            d = diffq (A, q);
+            VP_REQUIRE (c, d < 0, "quat-assign/depends-on-previous-contents", TN<T>::q () << " A = q assigned to a quaternion that held " << qs (J) << " gives " << qs (A) << " instead of " << qs (q));
+            A = J;
+            A = q.inverse ();
+            d = diffq (A, F_inv);
+            VP_REQUIRE (c, d < 0, "inverse/depends-on-previous-contents", TN<T>::q () << " A = q.inverse() assigned to a quaternion that held " << qs (J) << " gives " << qs (A) << " instead of " << qs (F_inv));
+            A = J;
+            A = q.normalized ();
+            d = diffq (A, F_nrm);
+            VP_REQUIRE (c, d < 0, "normalized/depends-on-previous-contents", TN<T>::q () << " A = q.normalized() assigned to a quaternion that held " << qs (J) << " gives " << qs (A) << " instead of " << qs (F_nrm));
+        }
+        {
+            Matrix33<T> M = junk33<T> (s, k);
+            M             = q.toMatrix33 ();
+            d             = diff33 (M, F_m33);
+            VP_REQUIRE (c, d < 0, "toMatrix33/depends-on-previous-contents", TN<T>::q () << " M = q.toMatrix33() assigned to a matrix that held [" << junk_scalar_name (k) << "] gives " << mstr (M, 3) << " instead of " << mstr (F_m33, 3) << " q=" << qs (q));
+        }
+    }
+    // ---- a destination that was last set by the SAME function with other arguments (the loop idiom)
+    {
+        Vec3<T> ax2 = draw_vec3<T> ([&] { return gen::moderate<T> (s); });
+        T       an2 = (T) s.uniform (-3.0, 3.0);
+        Matrix44<T> M;
+        M.setAxisAngle (ax2, an2);
+        M.setAxisAngle (ax, ang);
+        int d = diff44 (M, F_maa);
+        VP_REQUIRE (c, d < 0, "m44-setAxisAngle/depends-on-previous-contents", TN<T>::q () << " Matrix44::setAxisAngle(" << vs (ax) << "," << ang << ") after setAxisAngle(" << vs (ax2) << "," << an2 << ") on the same matrix gives " << mstr (M, 4) << " but on a fresh matrix " << mstr (F_maa, 4));
+        Quat<T> A;
+        A.setAxisAngle (ax2, an2);
+        A.setAxisAngle (ax, ang);
+        d = diffq (A, F_qaa);
+        VP_REQUIRE (c, d < 0, "quat-setAxisAngle/depends-on-previous-contents", TN<T>::q () << " Quat::setAxisAngle(" << vs (ax) << "," << ang << ") after setAxisAngle(" << vs (ax2) << "," << an2 << ") on the same quaternion gives " << qs (A) << " but on a fresh one " << qs (F_qaa));
+        A.setRotation (to, ax2);
+        A.setRotation (from, to);
+        d = diffq (A, F_rot);
+        VP_REQUIRE (c, d < 0, "setRotation/depends-on-previous-contents", TN<T>::q () << " setRotation(" << vs (from) << "," << vs (to) << ") after setRotation(" << vs (to) << "," << vs (ax2) << ") on the same quaternion gives " << qs (A) << " but on a fresh one " << qs (F_rot));
+    }
+}
+#define C10_DEST(name, T)                                                                                                                                                                                                                                                                                                                                                                                                                                                                                                                                                           \
+    VP_RANDOM (name, 80000, 1600000, "axis (small integers / unit / scaled 2^-42..2^30), angle, direction pair from the 8 classes of set_rotation, (1/4 non-unit) quaternion; every destination object is pre-filled with EACH junk fill (4x4: identity+translation row, identity+last column, identity with [3][3]!=1, and all slots = small values / NaN / +-max / +-inf / +-2^e / 0 / +-denorm_min; quaternion, 3x3: the 7 all-slot fills; and the result of the same setter with other arguments) and compared slot by slot, bitwise, with the result on a fresh object; every case non-trivial") \
+    {                                                                                                                                                                                                                                                                                                                                                                                                                                                                                                                                                                               \
+        dest_case<T> (c);                                                                                                                                                                                                                                                                                                                                                                                                                                                                                                                                                           \
+    }                                                                                                                                                                                                                                                                                                                                                                                                                                                                                                                                                                               \
+    VP_LABELS (name, "setRotation_angle_le_90", "setRotation_angle_gt_90", "setRotation_opposite", "axis_scaled", "non_unit_quaternion")                                                                                                                                                                                                                                                                                                                                                                                                                                            \
+    VP_REQUIRE_LABELS (name, "setRotation_angle_le_90", "setRotation_angle_gt_90", "setRotation_opposite", "axis_scaled", "non_unit_quaternion")
+C10_DEST (dest_reuse_f, float)
+C10_DEST (dest_reuse_d, double)
+
+// =====================================================================================
+// I. aliased arguments: an operand / argument that is the destination object itself (q *= q, slerp (q, q, t),
+//    setRotation (v, v), ...) gives bit for bit what the same call gives on a copy of that object
+// =====================================================================================
+enum
+{
+    LI_NONUNIT = QC_NCLASS,
+    LI_ROT_LE90,
+    LI_ROT_GT90
+};
+template <class T> static void alias_case (vp::Ctx& c)
+{
+    vp::Src& s = c.s;
+    int      cls;
+    const Quat<T> u = gen_unit_quat<T> (s, cls);
+    c.label (cls);
+    Quat<T> q = u;
+    if (s.chance (128))
+    {
+        int ex = (int) s.range (-10, 10);
+        q      = u * gen::with_exp<T> (s, ex);
+        c.label (LI_NONUNIT);
+    }
+    int tc;
+    T   t = gen_t<T> (s, tc);
+    Vec3<T> v, w;
+    gen_dir_pair<T> (c, v, w);
+    T ang = (T) s.uniform (-2 * 3.141592653589793, 2 * 3.141592653589793);
+    VP_NOTE (c, TN<T>::q () << " q=" << qs (q) << " unit u=" << qs (u) << " t=" << t << " v=" << vs (v) << " w=" << vs (w) << " angle=" << ang);
+    c.nt (generic_rotation (q_unit (toQ (u))));
+    int d;
+    // ---- compound assignment with the object itself on the right
+#define C10_ALIAS_OP(OP, KEY, TEXT)                                                                                                                                                                                       \
+    {                                                                                                                                                                                                                     \
+        Quat<T> a = q;                                                                                                                                                                                                    \
+        a OP    a;                                                                                                                                                                                                        \
+        Quat<T> b = q, cp = q;                                                                                                                                                                                            \
+        b OP    cp;                                                                                                                                                                                                       \
+        d = diffq (a, b);                                                                                                                                                                                                 \
+        VP_REQUIRE (c, d < 0, KEY, TN<T>::q () << " q " TEXT " q gives " << qs (a) << " but q " TEXT " (copy of q) gives " << qs (b) << " for q=" << qs (q));                                                             \
+    }
+    C10_ALIAS_OP (*=, "alias/quat-mul-assign", "*=")
+    C10_ALIAS_OP (/=, "alias/quat-div-assign", "/=")
+    C10_ALIAS_OP (+=, "alias/quat-add-assign", "+=")
+    C10_ALIAS_OP (-=, "alias/quat-sub-assign", "-=")
+#undef C10_ALIAS_OP
+    // q *= q against the quad product as well (unit quaternions: same bound as algebra's quat-product-assign)
+    {
+        Quat<T> a = u;
+        a *= a;
+        Q4   W  = qmul (toQ (u), toQ (u));
+        quad dd = q_diff_pm (a, W, false);
+        MEAS ("I.square", dd / EPS<T> ()); // measured worst 1.24 eps
+        VP_REQUIRE (c, dd <= 6 * EPS<T> (), "alias/quat-mul-assign", TN<T>::q () << " u *= u gives " << qs (a) << " exact " << q4str (W) << " u=" << qs (u));
+    }
+    // ---- q = q op q
+    {
+        Quat<T> a = q, cp = q, cq = q, b;
+        a         = a * a;
+        b         = cp * cq;
+        d         = diffq (a, b);
+        VP_REQUIRE (c, d < 0, "alias/quat-mul", TN<T>::q () << " q = q * q gives " << qs (a) << " but (copy) * (copy) gives " << qs (b) << " for q=" << qs (q));
+        a = q;
+        a = a / a;
+        b = cp / cq;
+        d = diffq (a, b);
+        VP_REQUIRE (c, d < 0, "alias/quat-div", TN<T>::q () << " q = q / q gives " << qs (a) << " but (copy) / (copy) gives " << qs (b) << " for q=" << qs (q));
+        a = q;
+        a = a.inverse ();
+        d = diffq (a, cp.inverse ());
+        VP_REQUIRE (c, d < 0, "alias/quat-inverse", TN<T>::q () << " q = q.inverse() gives " << qs (a) << " but (copy).inverse() gives " << qs (cp.inverse ()) << " for q=" << qs (q));
+        a = q;
+        a = a.normalized ();
+        d = diffq (a, cp.normalized ());
+        VP_REQUIRE (c, d < 0, "alias/quat-normalized", TN<T>::q () << " q = q.normalized() gives " << qs (a) << " for q=" << qs (q));
+        a = q;
+        a = ~a;
+        d = diffq (a, ~cp);
+        VP_REQUIRE (c, d < 0, "alias/quat-conjugate", TN<T>::q () << " q = ~q gives " << qs (a) << " for q=" << qs (q));
+        T d1 = q ^ q, d2 = cp ^ cq, d3 = q.euclideanInnerProduct (q), d4 = cp.euclideanInnerProduct (cq);
+        VP_REQUIRE (c, same<T> (d1, d2) && same<T> (d3, d4), "alias/quat-dot", TN<T>::q () << " q^q=" << d1 << " (copies: " << d2 << "), q.euclideanInnerProduct(q)=" << d3 << " (copies: " << d4 << ") for q=" << qs (q));
+    }
+    // ---- interpolation with identical arguments (unit quaternions)
+    {
+        const Quat<T> c1 = u, c2 = u, c3 = u, c4 = u;
+        T             a1 = angle4D (u, u), a2 = angle4D (c1, c2);
+        VP_REQUIRE (c, same<T> (a1, a2), "alias/angle4D", TN<T>::q () << " angle4D(u,u)=" << a1 << " but on copies " << a2 << " u=" << qs (u));
+        Quat<T> r1 = slerp (u, u, t), r2 = slerp (c1, c2, t);
+        d          = diffq (r1, r2);
+        VP_REQUIRE (c, d < 0, "alias/slerp", TN<T>::q () << " slerp(u,u," << t << ")=" << qs (r1) << " but on copies " << qs (r2) << " u=" << qs (u));
+        // and it is u itself (angle 0: every t gives the common endpoint); bound of slerp's endpoint check
+        quad du = q_diff_pm (r1, q_unit (toQ (u)), false);
+        MEAS ("I.slerp-same", du / EPS<T> ()); // measured worst 1.02 eps
+        VP_REQUIRE (c, du <= 6 * EPS<T> (), "alias/slerp", TN<T>::q () << " slerp(u,u," << t << ")=" << qs (r1) << " is not u=" << qs (u));
+        r1 = slerpShortestArc (u, u, t), r2 = slerpShortestArc (c1, c2, t);
+        d  = diffq (r1, r2);
+        VP_REQUIRE (c, d < 0, "alias/slerpShortestArc", TN<T>::q () << " slerpShortestArc(u,u," << t << ")=" << qs (r1) << " but on copies " << qs (r2) << " u=" << qs (u));
+        r1 = intermediate (u, u, u), r2 = intermediate (c1, c2, c3);
+        d  = diffq (r1, r2);
+        VP_REQUIRE (c, d < 0, "alias/intermediate", TN<T>::q () << " intermediate(u,u,u)=" << qs (r1) << " but on copies " << qs (r2) << " u=" << qs (u));
+        r1 = squad (u, u, u, u, t), r2 = squad (c1, c2, c3, c4, t);
+        d  = diffq (r1, r2);
+        VP_REQUIRE (c, d < 0, "alias/squad", TN<T>::q () << " squad(u,u,u,u," << t << ")=" << qs (r1) << " but on copies " << qs (r2) << " u=" << qs (u));
+        r1 = spline (u, u, u, u, t), r2 = spline (c1, c2, c3, c4, t);
+        d  = diffq (r1, r2);
+        VP_REQUIRE (c, d < 0, "alias/spline", TN<T>::q () << " spline(u,u,u,u," << t << ")=" << qs (r1) << " but on copies " << qs (r2) << " u=" << qs (u));
+        // result stored into one of the arguments
+        Quat<T> a = u, b = quat_at_angle<T> (s, u, 0.7L);
+        const Quat<T> b0 = b;
+        r2 = slerp (c1, b0, t);
+        a  = slerp (a, b, t);
+        d  = diffq (a, r2);
+        VP_REQUIRE (c, d < 0, "alias/slerp", TN<T>::q () << " a = slerp(a,b," << t << ") gives " << qs (a) << " but r = slerp(a,b,t) gives " << qs (r2) << " a=" << qs (u) << " b=" << qs (b0));
+        b  = slerp (c1, b, t);
+        d  = diffq (b, r2);
+        VP_REQUIRE (c, d < 0, "alias/slerp", TN<T>::q () << " b = slerp(a,b," << t << ") gives " << qs (b) << " but r = slerp(a,b,t) gives " << qs (r2) << " a=" << qs (u) << " b=" << qs (b0));
+    }
+    // ---- setRotation / rotationMatrix with from and to the same object
+    {
+        const Vec3<T> cv = v;
+        Quat<T>       a, b;
+        a.setRotation (v, v);
+        b.setRotation (v, cv);
+        d = diffq (a, b);
+        VP_REQUIRE (c, d < 0, "alias/setRotation", TN<T>::q () << " setRotation(v,v)=" << qs (a) << " but setRotation(v, copy of v)=" << qs (b) << " v=" << vs (v));
+        Matrix44<T> ma = rotationMatrix (v, v), mb = rotationMatrix (v, cv);
+        d              = diff44 (ma, mb);
+        VP_REQUIRE (c, d < 0, "alias/rotationMatrix", TN<T>::q () << " rotationMatrix(v,v)=" << mstr (ma, 4) << " but rotationMatrix(v, copy of v)=" << mstr (mb, 4) << " v=" << vs (v));
+    }
+    // ---- an argument that is a member of the destination: q.setAxisAngle (q.v, a), q.setRotation (q.v, w), q.setRotation (v, q.v)
+    {
+        Vec3<T> f0 = v.normalized (), t0 = w.normalized ();
+        c.label ((f0 ^ t0) >= 0 ? LI_ROT_LE90 : LI_ROT_GT90);
+        Quat<T> a ((T) 0.5, v), b ((T) 0.5, v);
+        a.setAxisAngle (a.v, ang);
+        b.setAxisAngle (v, ang);
+        d = diffq (a, b);
+        VP_REQUIRE (c, d < 0, "alias/own-member-setAxisAngle", TN<T>::q () << " q.setAxisAngle(q.v," << ang << ") gives " << qs (a) << " but q.setAxisAngle(copy of q.v," << ang << ") gives " << qs (b) << " q.v=" << vs (v));
+        a = Quat<T> ((T) 0.5, v), b = a;
+        a.setRotation (a.v, w);
+        b.setRotation (v, w);
+        d = diffq (a, b);
+        VP_REQUIRE (c, d < 0, "alias/own-member-setRotation", TN<T>::q () << " q.setRotation(q.v,to) gives " << qs (a) << " but q.setRotation(copy of q.v,to) gives " << qs (b) << " q.v=" << vs (v) << " to=" << vs (w));
+        a = Quat<T> ((T) 0.5, w), b = a;
+        a.setRotation (v, a.v);
+        b.setRotation (v, w);
+        d = diffq (a, b);
+        VP_REQUIRE (c, d < 0, "alias/own-member-setRotation", TN<T>::q () << " q.setRotation(from,q.v) gives " << qs (a) << " but q.setRotation(from,copy of q.v) gives " << qs (b) << " from=" << vs (v) << " q.v=" << vs (w));
+        // rotating the quaternion's own vector part / storing the rotated vector over the argument
+        Vec3<T> x = v, y = v;
+        x         = u.rotateVector (x);
+        d         = diffv (x, u.rotateVector (v));
+        VP_REQUIRE (c, d < 0, "alias/rotateVector", TN<T>::q () << " x = u.rotateVector(x) gives " << vs (x) << " but u.rotateVector(copy) " << vs (u.rotateVector (v)));
+        y = y * u;
+        d = diffv (y, v * u);
+        VP_REQUIRE (c, d < 0, "alias/vec-times-quat", TN<T>::q () << " y = y * u gives " << vs (y) << " but (copy) * u " << vs (v * u));
+        const Vec3<T> uv = u.v;
+        d                = diffv (u.rotateVector (u.v), u.rotateVector (uv));
+        VP_REQUIRE (c, d < 0, "alias/rotateVector", TN<T>::q () << " u.rotateVector(u.v) gives " << vs (u.rotateVector (u.v)) << " but u.rotateVector(copy of u.v) " << vs (u.rotateVector (uv)) << " u=" << qs (u));
+    }
+}
+#define C10_ALIAS(name, T)                                                                                                                                                                                                                                                                                                                                                                                                                                                                                                   \
+    VP_RANDOM (name, 150000, 3000000, "quaternion u from the 7 classes and q = u (1/2) or u*2^k; t from the t-classes; direction pair v,w from the 8 classes of set_rotation; every call is made twice - once with the same object in two roles (q op= q, q = q op q, slerp/squad/spline/intermediate/angle4D (u,u,..), a = slerp (a,b,t), setRotation (v,v), q.setAxisAngle (q.v,a), q.setRotation (q.v,w)) and once on copies - and the results are compared bitwise; non-trivial = generic rotation") \
+    {                                                                                                                                                                                                                                                                                                                                                                                                                                                                                                                        \
+        alias_case<T> (c);                                                                                                                                                                                                                                                                                                                                                                                                                                                                                                   \
+    }                                                                                                                                                                                                                                                                                                                                                                                                                                                                                                                        \
+    VP_LABELS (name, C10_QLABELS, "non_unit_quaternion", "own_member_angle_le_90", "own_member_angle_gt_90")                                                                                                                                                                                                                                                                                                                                                                                                                 \
+    VP_REQUIRE_LABELS (name, C10_QLABELS, "non_unit_quaternion", "own_member_angle_le_90", "own_member_angle_gt_90")
+C10_ALIAS (alias_f, float)
+C10_ALIAS (alias_d, double)
 
 VP_MAIN ("C10")
